@@ -306,6 +306,17 @@ func c06(args []string) {
 		emitVal(v, arch, bt, i < 3)
 	}
 	emitVal(proto.Value{}, 0, basetype.Uint8, false)
+	// Align / Valid dispatch: one value of every Go type against every base type of the protocol (and a few bytes that are none)
+	for k := proto.Type(1); k <= 24; k++ {
+		v := r.randValue(k)
+		for _, bt := range basetype.List() {
+			emitVal(v, 0, bt, false)
+		}
+		for j := 0; j < 3; j++ {
+			emitVal(v, 0, basetype.BaseType(r.intn(256)), false)
+		}
+		stat("align_matrix_rows", 1)
+	}
 	// raw unmarshal: arbitrary bytes against arbitrary (base type, profile type, array flag), incl. too short inputs
 	for i := 0; i < nraw; i++ {
 		var b []byte
